@@ -35,6 +35,7 @@ enum Act {
     SlicesMut,
     Drain(u16),
     Extend(u16),
+    ExtendFail(u16), // extend from an iterator that yields k items and then panics (caught)
     Meta,
     // fixed only
     SetFirst(u16),
@@ -56,6 +57,7 @@ impl Act {
             Act::SlicesMut => "slices_mut".into(),
             Act::Drain(k) => format!("drain:{k}"),
             Act::Extend(k) => format!("extend:{k}"),
+            Act::ExtendFail(k) => format!("extend_fail:{k}"),
             Act::Meta => "meta".into(),
             Act::SetFirst(i) => format!("set_first:{i}"),
             Act::IterLoop => "iter_loop".into(),
@@ -75,6 +77,7 @@ impl Act {
             Act::SlicesMut => "slices_mut",
             Act::Drain(_) => "drain",
             Act::Extend(_) => "extend",
+            Act::ExtendFail(_) => "extend_fail",
             Act::Meta => "meta",
             Act::SetFirst(_) => "set_first",
             Act::IterLoop => "iter_loop",
@@ -98,6 +101,7 @@ impl Act {
             "slices_mut" => Act::SlicesMut,
             "drain" => Act::Drain(a),
             "extend" => Act::Extend(a),
+            "extend_fail" => Act::ExtendFail(a),
             "meta" => Act::Meta,
             "set_first" => Act::SetFirst(a),
             "iter_loop" => Act::IterLoop,
@@ -122,6 +126,7 @@ trait BQ {
     fn slices_mut_add(&mut self, d: u32) -> (Vec<u32>, Vec<u32>);
     fn drain_take(&mut self, k: usize) -> (Vec<Option<u32>>, Vec<(usize, Option<usize>, usize)>);
     fn extend(&mut self, xs: &[u32]);
+    fn extend_fail(&mut self, xs: &[u32]);
     fn meta(&self) -> (usize, bool, bool, usize);
 }
 
@@ -182,6 +187,9 @@ impl<S: SliceMut<Element = u32>> BQ for Bounded<S> {
     fn extend(&mut self, xs: &[u32]) {
         Extend::extend(self, xs.iter().copied())
     }
+    fn extend_fail(&mut self, xs: &[u32]) {
+        Extend::extend(self, xs.iter().copied().chain((0..1).map(|_| -> u32 { panic!("injected iterator failure") })))
+    }
     fn meta(&self) -> (usize, bool, bool, usize) {
         (self.len(), self.is_empty(), self.is_full(), self.max_len())
     }
@@ -200,6 +208,7 @@ trait FQ {
     fn slices(&self) -> (Vec<u32>, Vec<u32>);
     fn slices_mut_add(&mut self, d: u32) -> (Vec<u32>, Vec<u32>);
     fn extend(&mut self, xs: &[u32]);
+    fn extend_fail(&mut self, xs: &[u32]);
     fn len(&self) -> usize;
 }
 
@@ -251,6 +260,9 @@ impl<S: SliceMut<Element = u32>> FQ for Fixed<S> {
     }
     fn extend(&mut self, xs: &[u32]) {
         Extend::extend(self, xs.iter().copied())
+    }
+    fn extend_fail(&mut self, xs: &[u32]) {
+        Extend::extend(self, xs.iter().copied().chain((0..1).map(|_| -> u32 { panic!("injected iterator failure") })))
     }
     fn len(&self) -> usize {
         Fixed::len(self)
@@ -402,6 +414,34 @@ fn bounded_step(b: &mut dyn BQ, q: &mut VecDeque<u32>, cap: usize, act: Act, fre
             }
             obs = n as u64;
         }
+        Act::ExtendFail(n) => {
+            // the iterator fails after n items; the caller catches that and keeps the buffer. Which
+            // of the n items made it in is not fixed by the property, but the buffer must be the
+            // queue after SOME prefix of them was pushed
+            let xs: Vec<u32> = (0..n).map(|_| next()).collect();
+            let _ = catch(|| b.extend_fail(&xs));
+            let got = match catch(|| b.iter()) {
+                Ok(g) => g,
+                Err(p) => return mm(&k, format!("iter() after a caught failure inside extend panicked: {p}")),
+            };
+            let mut qj = q.clone();
+            let mut found = qj.iter().copied().eq(got.iter().copied());
+            for &x in &xs {
+                if found {
+                    break;
+                }
+                if qj.len() == cap {
+                    qj.pop_front();
+                }
+                qj.push_back(x);
+                found = qj.iter().copied().eq(got.iter().copied());
+            }
+            if !found {
+                return mm(&k, format!("after extend() from an iterator that yielded {xs:?} and then panicked (caught), the buffer holds {got:?}: not the queue {q:?} after pushing any prefix of those items"));
+            }
+            *q = qj;
+            obs = got.len() as u64;
+        }
         Act::Meta => {
             let exp = (q.len(), q.is_empty(), q.len() == cap, cap);
             let got = catch(|| b.meta());
@@ -525,6 +565,32 @@ fn fixed_step(b: &mut dyn FQ, q: &mut VecDeque<u32>, first: &mut usize, n: usize
                 return mm(&k, format!("extend panicked: {p}"));
             }
             obs = m as u64;
+        }
+        Act::ExtendFail(m) => {
+            let xs: Vec<u32> = (0..m).map(|_| next()).collect();
+            let _ = catch(|| b.extend_fail(&xs));
+            let got = match catch(|| b.iter()) {
+                Ok(g) => g,
+                Err(p) => return mm(&k, format!("iter() after a caught failure inside extend panicked: {p}")),
+            };
+            let mut qj = q.clone();
+            let mut fj = *first;
+            let mut found = qj.iter().copied().eq(got.iter().copied());
+            for &x in &xs {
+                if found {
+                    break;
+                }
+                qj.pop_front();
+                qj.push_back(x);
+                fj = (fj + 1) % n;
+                found = qj.iter().copied().eq(got.iter().copied());
+            }
+            if !found {
+                return mm(&k, format!("after extend() from an iterator that yielded {xs:?} and then panicked (caught), the buffer holds {got:?} oldest-first: not the delay line {q:?} after pushing any prefix of those items"));
+            }
+            *q = qj;
+            *first = fj;
+            obs = got.len() as u64;
         }
         Act::Meta => {
             let got = catch(|| b.len());
@@ -870,6 +936,7 @@ fn bounded_alphabet(cap: usize) -> Vec<Act> {
         v.extend([Act::Get(i), Act::GetMut(i), Act::Index(i), Act::IndexMut(i), Act::Drain(i)]);
     }
     v.extend([Act::Extend(1), Act::Extend(2), Act::Extend(cap as u16 + 1)]);
+    v.extend([Act::ExtendFail(0), Act::ExtendFail(1), Act::ExtendFail(2), Act::ExtendFail(cap as u16 + 1)]);
     v
 }
 
@@ -879,6 +946,7 @@ fn fixed_alphabet(n: usize) -> Vec<Act> {
         v.extend([Act::Get(i), Act::GetMut(i), Act::Index(i), Act::IndexMut(i), Act::SetFirst(i)]);
     }
     v.extend([Act::Extend(1), Act::Extend(2), Act::Extend(n as u16 + 1)]);
+    v.extend([Act::ExtendFail(0), Act::ExtendFail(1), Act::ExtendFail(2), Act::ExtendFail(n as u16 + 1)]);
     v
 }
 
@@ -1136,7 +1204,7 @@ fn main() {
     }
     let maxcap = ctx.tier.pick(6, 12);
     ctx.rule(&format!(
-        "merged: stateright BFS to fixpoint, one model instance per (buffer, storage kind, capacity 1..={maxcap}; array/Vec/Box storage for capacities <=4), initial states = every valid raw state, alphabet = push/pop/get/get_mut/Index/IndexMut(i<=cap+1 resp. 2N+1)/iter/iter_mut/iter_loop/slices/slices_mut/drain.take(k)/extend/set_first/len.., each transition = the real operation on a buffer rebuilt with from_raw_parts over position-labelled storage between canaries vs VecDeque; a case is non-trivial and distinct by (state, action, observation fingerprint); plus scale probes: capacities 16,17,24,32,33,48,64,65,96,129,255 (thorough: also 31,63,80,100,127,128,160,192,256,257,1000), every raw state an initial state, index-taking actions at indices 0,1,cap/2,cap-2..cap+1,2cap-1.. only"
+        "merged: stateright BFS to fixpoint, one model instance per (buffer, storage kind, capacity 1..={maxcap}; array/Vec/Box storage for capacities <=4), initial states = every valid raw state, alphabet = push/pop/get/get_mut/Index/IndexMut(i<=cap+1 resp. 2N+1)/iter/iter_mut/iter_loop/slices/slices_mut/drain.take(k)/extend/extend from an iterator that panics after k items (caught; the buffer must be the queue after some prefix of them)/set_first/len.., each transition = the real operation on a buffer rebuilt with from_raw_parts over position-labelled storage between canaries vs VecDeque; a case is non-trivial and distinct by (state, action, observation fingerprint); plus scale probes: capacities 16,17,24,32,33,48,64,65,96,129,255 (thorough: also 31,63,80,100,127,128,160,192,256,257,1000), every raw state an initial state, index-taking actions at indices 0,1,cap/2,cap-2..cap+1,2cap-1.. only"
     ));
     ctx.rule("unmerged: DFS over every history (no relabelling, no merging) over {push,pop,get(i),index(i),iter,slices,drain(1),extend(2)} resp. {push,get(i),set_first(i),iter,iter_loop,slices} from every initial state of capacities <=3 (thorough <=4)");
     ctx.rule("constructors: from_raw_parts over every (cap 1..=9, start 0..=cap+1, len 0..=cap+1) accepts exactly the valid states and panics otherwise; From/from_full/FromIterator initial states");
